@@ -11,6 +11,7 @@ import (
 	"go/token"
 	"go/types"
 	"math"
+	"time"
 )
 
 const absMark = uint64(1)
@@ -115,6 +116,46 @@ func registerTimeStubs() {
 	externals["(time.Time).IsZero"] = ext1(func(fr *frame, a []value) value {
 		z, _ := timeParts(a[0])
 		return z
+	})
+	// JSON text form: computed natively for concrete instants (RFC 3339 in
+	// the process's local zone, exactly as the native replay does)
+	externals["(time.Time).MarshalJSON"] = ext1(func(fr *frame, a []value) value {
+		z, ns := timeParts(a[0])
+		var t time.Time
+		if !z {
+			n, ok := ns.(int64)
+			if !ok {
+				unsupported("Time.MarshalJSON of a symbolic instant")
+			}
+			t = time.Unix(0, n)
+		}
+		b, err := t.MarshalJSON()
+		if err != nil {
+			return tuple{[]value(nil), fr.i.errorOf(err.Error())}
+		}
+		return tuple{strBytes(string(b)), iface{}}
+	})
+	externals["(*time.Time).UnmarshalJSON"] = ext1(func(fr *frame, a []value) value {
+		bs := a[1].([]value)
+		raw := make([]byte, len(bs))
+		for k, b := range bs {
+			cb, ok := b.(uint8)
+			if !ok {
+				unsupported("Time.UnmarshalJSON of symbolic bytes")
+			}
+			raw[k] = cb
+		}
+		var t time.Time
+		if err := t.UnmarshalJSON(raw); err != nil {
+			return fr.i.errorOf(err.Error())
+		}
+		p := a[0].(*value)
+		if t.IsZero() {
+			*p = structure{uint64(0), int64(0), (*value)(nil)}
+		} else {
+			*p = absTime(t.UnixNano())
+		}
+		return iface{}
 	})
 	externals["(time.Time).UTC"] = ext1(func(fr *frame, a []value) value { return a[0] })
 	externals["(time.Time).Local"] = ext1(func(fr *frame, a []value) value { return a[0] })
